@@ -39,13 +39,22 @@ def build(sizes=None, only=None, part=None):
                         import traceback
                         traceback.print_exc()
                     obs.append(Oblig(f"C14/executes[{cls},{form},{mshape}]", [], BoolVal(False), "post", ("C14",), {"engine_error": f"{type(e).__name__}: {e}"}))
+    # a custom sampler may return objects of another class (here: plain Scores for a GroupScores source): the name is still
+    # resolved on the class of the object bootstrap_metric was called on
+    try:
+        obs += build_one("GroupScores", "name", "Y", sample_cls="Scores")
+    except Exception as e:
+        if os.environ.get("VERIF_DEBUG"):
+            import traceback
+            traceback.print_exc()
+        obs.append(Oblig("C14/executes[GroupScores,name,Y,sampler-returns-Scores]", [], BoolVal(False), "post", ("C14",), {"engine_error": f"{type(e).__name__}: {e}"}))
     obs += rng_discipline()
     return obs
 
 
-def build_one(cls, form, mshape):
+def build_one(cls, form, mshape, sample_cls=None):
     obs = []
-    tag = f"[{cls},metric-by-{form},metric-shape={'()' if mshape == 'scalar' else '(Y,)'}]"
+    tag = f"[{cls},metric-by-{form},metric-shape={'()' if mshape == 'scalar' else '(Y,)'}{',sampler-returns-' + sample_cls if sample_cls else ''}]"
     state = {"sampler_calls": [], "metric_calls": [], "ci_calls": []}
     Mf = Function("MetricOf", IntSort(), IntSort(), RealSort())          # value of the metric on object #id, component y
     kwv = Real("kwarg_threshold")
@@ -64,7 +73,7 @@ def build_one(cls, form, mshape):
         k = state.get("loop_index")
         state["sampler_calls"].append((self_, config, k))
         S = Function("SampleId", IntSort(), IntSort())
-        return Obj(self_.cls, __id__=S(k) if k is not None else ex.new_int("sample"), __sample_of__=self_)
+        return Obj(sample_cls or self_.cls, __id__=S(k) if k is not None else ex.new_int("sample"), __sample_of__=self_)
 
     def metric_fn(ex, path, o, **kw):
         state["metric_calls"].append((o, kw))
@@ -238,6 +247,41 @@ def oracle(case):
         exp = ci_formula(theta=rows, theta_hat=m0, alpha=case["alpha"], method=case["method"])
     if not np.array_equal(np.asarray(got), np.asarray(exp), equal_nan=True):
         return f"bootstrap_ci {np.asarray(got).tolist()} is not the CI formula applied to the replicates with the original metric as estimate {np.asarray(exp).tolist()} {info}"
+    # ... and equals an independent transcription of the documented formula (scalar alpha; vector alpha for the quantile method)
+    from props.c13 import reference
+    with np.errstate(all="ignore"):
+        ref = reference(np.asarray(rows, dtype=float), m0, case["alpha"], case["method"])
+    if not np.allclose(np.asarray(got), ref, rtol=1e-12, atol=1e-12, equal_nan=True):
+        return f"bootstrap_ci {np.asarray(got).tolist()} differs from the documented {case['method']} formula on the replicates {ref.tolist()} {info}"
+    if case["method"] == "quantile":
+        al = np.array([0.02, 0.1, 0.4])
+        calls.clear()
+        gotv = np.asarray(s.bootstrap_ci(metric, alpha=al, config=cfg, **mkw))
+        if gotv.shape != m0.shape + (3, 2):
+            return f"bootstrap_ci with vector alpha has shape {gotv.shape}, expected {m0.shape + (3, 2)} {info}"
+        for k, a_ in enumerate(al):
+            with np.errstate(all="ignore"):
+                refk = reference(np.asarray(rows, dtype=float), m0, float(a_), "quantile")
+            if not np.allclose(gotv[..., k, :], refk, rtol=1e-12, atol=1e-12, equal_nan=True):
+                return f"bootstrap_ci with vector alpha: entry {k} {gotv[..., k, :].tolist()} differs from the documented quantile limits {refk.tolist()} {info}"
+    # names are resolved on the class of the object, also when a custom sampler returns objects of another class
+    if kind != "GroupScores":
+        class Doubled(Scores):
+            def fnr(self, threshold):
+                return 2.0 * Scores.fnr(self, threshold)
+
+            def only_here(self, threshold):
+                return Scores.tpr(self, threshold) + 1.0
+        d = Doubled(pos, neg)
+        plain = lambda o: Scores(o.pos + 0.01, o.neg)
+        for nm in ("fnr", "only_here"):
+            try:
+                rws = d.bootstrap_metric(nm, config=BootstrapConfig(nb_samples=2, sampling_method=plain), threshold=0.5)
+            except Exception as e:
+                return f"metric name {nm!r} of a subclass with a sampler returning plain Scores raised {type(e).__name__}: {e} {info}"
+            want = getattr(Doubled, nm)(plain(d), 0.5)
+            if not np.array_equal(rws, np.full(2, want), equal_nan=True):
+                return f"metric name {nm!r} was not resolved on the object's own class: rows {rws.tolist()}, expected {want} {info}"
     # identity sampler: collapses to the point estimate
     with np.errstate(all="ignore"):
         ci = s.bootstrap_ci(metric, alpha=case["alpha"], config=BootstrapConfig(nb_samples=5, sampling_method=lambda o: o, bootstrap_method=case["method"]), **mkw)
@@ -289,7 +333,7 @@ def bounded(chk):
                               "builtin": builtin_scores if cls == "Scores" else builtin_groups, "ep": seed % 3, "en": (seed + 1) % 2})
             items.append({"cls": "Scores", "npos": 150, "nneg": 140, "nb": 4, "method": method, "alpha": 0.05, "seed": chk.seed * 100 + seed,
                           "builtin": [("dynamic", None, False), ("single_pass", None, False), ("single_pass", "by_label", False)], "metric": "tpr"})
-    chk.bounded["bound"] = "Scores / GroupScores with 9..150 scores per class, counting deterministic sampler (row j vs j-th sample), callable metric with kwargs, identity sampler, all three CI methods, every built-in sampling configuration run twice under the same global seed"
+    chk.bounded["bound"] = "Scores / GroupScores with 9..150 scores per class, counting deterministic sampler (row j vs j-th sample), callable metric with kwargs, identity sampler, all three CI methods (scalar alpha; vector alpha for quantile) against an independent transcription of the formulas, a subclass with overridden / additional metrics under a sampler returning the base class, every built-in sampling configuration run twice under the same global seed"
     chk.bounded["rule"] = "seeded grid"
     run_bounded(chk, items, eval_items)
     chk.samples.append({"bounded-case": items[0]})
